@@ -1,8 +1,8 @@
 (* C07 proofs, part 5: histories.  The three invariants together, the writer laws at every
    step of a history, re-subscription, and the two refutation witnesses. *)
 From Coq Require Import ZArith NArith List Bool Lia.
-From Tinode Require Import Base.Util Pure.Acs Sys.Topic Sys.TopicTac Sys.TopicFrame Sys.TopicMarks Sys.TopicAcl
-  Sys.TopicAclProofs Sys.TopicAclInv Sys.TopicAclJoin Sys.TopicAclOwn.
+From Tinode Require Import Base.Util Pure.Acs Sys.Topic Sys.TopicTac Sys.TopicFrame Sys.TopicMarks Sys.TopicAclC07
+  Sys.TopicAclC07Proofs Sys.TopicAclC07Inv Sys.TopicAclC07Join Sys.TopicAclC07Own.
 Import ListNotations.
 Open Scope Z_scope.
 
